@@ -190,11 +190,13 @@ async fn do_sql(db: &Db, req: &Value) -> Value {
     let want_plan = req["plan"].as_bool().unwrap_or(false);
     match mode {
         "prod" => {
+            let mut plan_schema: Option<Value> = None;
             let plan = if want_plan {
                 match db.ctx.physical_plan(sql) {
                     Ok(p) => {
                         let mut v = Vec::new();
                         plan_names(&p, &mut v);
+                        plan_schema = Some(codec::schema_json(&p.schema()));
                         Some(v)
                     }
                     Err(_) => None,
@@ -205,6 +207,9 @@ async fn do_sql(db: &Db, req: &Value) -> Value {
             match db.ctx.sql(sql).await {
                 Ok(r) => {
                     let mut v = result_json(&r.schema, &r.batches, plan);
+                    if let Some(ps) = plan_schema {
+                        v["plan_schema"] = ps;
+                    }
                     v["spilled"] = json!(r.metrics.spill_metrics.as_ref().map(|m| m.bytes_spilled).unwrap_or(0));
                     v
                 }
